@@ -158,7 +158,7 @@ def sweep_lengths(thorough):
     top = 1100 if thorough else 400
     lens = list(range(0, top))
     p2 = 512
-    while p2 <= (65536 if thorough else 4096):
+    while p2 <= (32768 if thorough else 4096):      # the harness parses argument strings of up to 65536 bytes
         lens += [p2 + d for d in range(-3, 4)]
         p2 *= 2
     return sorted(set(lens))
@@ -661,7 +661,7 @@ def run(ctx):
     nh = 60000 if thorough else 4000
     sweep = gen_length_sweep(ctx.rng, thorough)
     ctx.extra["string_length_sweep"] = "%d histories: every string length 0..%d and around the powers of two up to %d" % (
-        len(sweep), (1100 if thorough else 400) - 1, 65536 if thorough else 4096)
+        len(sweep), (1100 if thorough else 400) - 1, 32768 if thorough else 4096)
     batch = sweep + [gen_history(ctx.rng, thorough, ctx.count) for _ in range(nh)]
     for h in batch[:2]:
         ctx.sample([o[:200] for o in h[:30]])
